@@ -144,9 +144,17 @@ func ZZ_C09_senderAuth() {
 	// a joiner entry may carry the SAME ADDRESS as a member (with the signer's validly self-signed key):
 	// address look-ups that do not stop at the recorded member would then pick the wrong key
 	shadow := zz.Bool("proposal.joiner_shadows_leader_address")
+	claimAddr := w.parts[claimed].Address
 	if shadow {
 		sh := zzCloneP(w.parts[signer])
 		sh.Address = w.parts[claimed].Address
+		if zz.Bool("proposal.shadow_address_differs_in_case_only") {
+			// ... or an address that only LOOKS like the member's (same host in another case), which the packet
+			// then also names as its sender: a comparison looser than the key look-up would take it for the member
+			sh.Address = "NODE1.example:4001"
+			claimAddr = sh.Address
+			zz.Tag("shadow_address_differs_in_case_only")
+		}
 		joining = append(joining, sh)
 	}
 	terms := zzTerms(w, 2, claimed, remaining, joining, nil)
@@ -158,7 +166,7 @@ func ZZ_C09_senderAuth() {
 		terms.Threshold = 3 // 4 nodes
 	}
 	pkt := &drand.GossipPacket{Packet: &drand.GossipPacket_Proposal{Proposal: terms}}
-	zzSign(w, signer, w.parts[claimed].Address, pkt, terms)
+	zzSign(w, signer, claimAddr, pkt, terms)
 	_, err := p.Packet(context.Background(), pkt)
 	zz.Quiesce()
 	changed := len(st.ops) > 0
@@ -190,7 +198,20 @@ func init() { zz.Register("ZZ_C09_controlPackets", ZZ_C09_controlPackets) }
 // entitled to the action: only the leader aborts or executes, only a remaining member accepts or rejects, and
 // only for itself. A refused packet leaves the state exactly as it was.
 func ZZ_C09_controlPackets() {
-	w := zzNewWorld(4) // 0 = this node, 1 = leader, 2 = another remaining member, 3 = joiner or outsider
+	// 0 = this node, 1 = leader, 2 = another remaining member, 3 = joiner or outsider -- whose address may be the
+	// leader's in another case (its own key): it is still not the leader
+	hasJoiner := zz.Bool("proposal.has_joiner")
+	lookalike := false
+	if hasJoiner {
+		lookalike = zz.Bool("participant3.address_is_the_leaders_in_another_case")
+	}
+	var w *zzWorld
+	if lookalike {
+		w = zzNewWorldAddr(4, 3, "NODE1.example:4001")
+		zz.Tag("participant3_address_differs_from_the_leaders_in_case_only")
+	} else {
+		w = zzNewWorld(4)
+	}
 	bolt, err := NewDKGStore(zz.TempDir("c09ctl"))
 	if err != nil {
 		panic(err)
@@ -203,7 +224,7 @@ func ZZ_C09_controlPackets() {
 		panic(err)
 	}
 	var joining []*drand.Participant
-	if zz.Bool("proposal.has_joiner") {
+	if hasJoiner {
 		joining = []*drand.Participant{w.parts[3]}
 	}
 	cur := &DBState{BeaconID: zzBeacon, Epoch: 2, State: []Status{Proposed, Accepted}[zz.Choose("state", 2)], Threshold: 2, Timeout: time.Now().Add(time.Hour),
